@@ -88,17 +88,125 @@ func iterReaches(target ssa.Instruction, o exprOpts, subst map[ssa.Value]string,
 		if !in[s] {
 			continue
 		}
-		// a header that is also the only body block (rotated loops) is handled by walking from it
-		last := walkBlocks(s, h, env, func(b *ssa.BasicBlock) bool { return b == tb || b == h || !in[b] })
-		if last == nil {
+		any = true
+		some := reachQ(s, h, cloneEnv(env), func(b *ssa.BasicBlock) bool { return b == tb }, func(b *ssa.BasicBlock) bool { return b == h || !in[b] }, 0, false)
+		if !some {
+			continue
+		}
+		// reached on some path: it must then be reached on every path (no further, unvalued, guard in front of it)
+		m := 4000
+		env.fuel = &m
+		if !reachQ(s, h, cloneEnv(env), func(b *ssa.BasicBlock) bool { return b == tb }, func(b *ssa.BasicBlock) bool { return b == h || !in[b] }, 0, true) {
 			return false, false
 		}
-		any = true
-		if last == tb {
-			return true, true
-		}
+		return true, true
 	}
 	return false, any
+}
+
+func cloneEnv(e intEnv) intEnv {
+	c := e
+	c.params = map[ssa.Value]int64{}
+	for k, v := range e.params {
+		c.params[k] = v
+	}
+	c.lens = map[ssa.Value]int64{}
+	for k, v := range e.lens {
+		c.lens[k] = v
+	}
+	c.unknown = map[ssa.Value]bool{}
+	for k, v := range e.unknown {
+		c.unknown[k] = v
+	}
+	return c
+}
+
+// reachSome: is a block satisfying goal reached from b on some path whose
+// evaluable conditions hold under env? Conditions that cannot be evaluated
+// (they depend on nothing the rule valued) are explored both ways; blocks
+// satisfying stop end a path.
+func reachSome(b, from *ssa.BasicBlock, env intEnv, goal, stop func(*ssa.BasicBlock) bool, forks int) bool {
+	return reachQ(b, from, env, goal, stop, forks, false)
+}
+
+// reachQ with all=true: is the goal reached on every such path?
+func reachQ(b, from *ssa.BasicBlock, env intEnv, goal, stop func(*ssa.BasicBlock) bool, forks int, all bool) bool {
+	for steps := 0; steps < 400; steps++ {
+		if *env.fuel <= 0 {
+			return false
+		}
+		*env.fuel--
+		last := walkBlocks(b, from, env, func(x *ssa.BasicBlock) bool { return true })
+		if last == nil {
+			return false
+		}
+		// walkBlocks with stop=always assigns the phis of b and returns b
+		if goal(b) {
+			return true
+		}
+		if stop(b) {
+			return false
+		}
+		switch t := b.Instrs[len(b.Instrs)-1].(type) {
+		case *ssa.Jump:
+			from, b = b, b.Succs[0]
+		case *ssa.If:
+			k, ok := evalInt(t.Cond, env, 0)
+			if ok {
+				if k != 0 {
+					from, b = b, b.Succs[0]
+				} else {
+					from, b = b, b.Succs[1]
+				}
+				continue
+			}
+			if h2, in2 := natLoop(b); h2 == b && in2 != nil {
+				// an inner loop with an unvalued trip count: stepped over (its phis become unknown)
+				var exit *ssa.BasicBlock
+				for _, s := range b.Succs {
+					if !in2[s] {
+						exit = s
+					}
+				}
+				if exit != nil && !goalInside(in2, goal) {
+					for lb := range in2 {
+						for _, ins := range lb.Instrs {
+							if p, isPhi := ins.(*ssa.Phi); isPhi {
+								delete(env.params, p)
+								delete(env.lens, p)
+								env.unknown[p] = true
+							}
+						}
+					}
+					from, b = b, exit
+					continue
+				}
+			}
+			if forks > 10 {
+				return false
+			}
+			if all {
+				for _, s := range b.Succs {
+					if !reachQ(s, b, cloneEnv(env), goal, stop, forks+1, true) {
+						return false
+					}
+				}
+				return true
+			}
+			for _, s := range b.Succs {
+				if s.Dominates(b) && s != b {
+					continue // do not re-enter an enclosing loop on an unknown condition
+				}
+				if reachQ(s, b, cloneEnv(env), goal, stop, forks+1, false) {
+					return true
+				}
+			}
+			return false
+		default:
+			return false
+		}
+	}
+	return false
 }
 
 // selectionTable enumerates the valuations of the named atoms (each over its
@@ -201,4 +309,13 @@ func boundTarget(f *ssa.Function) *ssa.Function {
 		}
 	}
 	return f
+}
+
+func goalInside(in map[*ssa.BasicBlock]bool, goal func(*ssa.BasicBlock) bool) bool {
+	for b := range in {
+		if goal(b) {
+			return true
+		}
+	}
+	return false
 }
